@@ -9,7 +9,7 @@ from .c07 import mk
 from .common import P
 
 PROPERTY = "C01"
-BUDGET_S = {"quick": 400, "thorough": 2400}
+BUDGET_S = {"quick": 600, "thorough": 2400}
 STUBS = ["struct/bytes/enum lowering (C-boundary models, validated by concrete re-runs of sampled paths on the real struct)"]
 ASSUMPTIONS = [
     "payloads longer than 8 bytes: first byte, last byte and one shared fill byte are symbolic (content independence of the codec is exercised, not every byte pattern)",
